@@ -51,7 +51,8 @@ def main():
                     rc, out = sh("rm -rf %s && mkdir -p %s && %s -repo %s -property all -tier quick -outdir %s; rc=$?; rm -rf %s; exit $rc" % (od, od, binp, d, od, od), cwd="/verif")
                     fired = re.findall(r"VIOLATION property=(\S+)", out)
                     infra = "infrastructure failure" in out
-                    res = ("exit=%d%s" % (rc, " INFRA" if infra else ""), fired, out)
+                    panic = "checker panic" in out
+                    res = ("exit=%d%s%s" % (rc, " INFRA" if infra else "", " PANIC" if panic else ""), fired, out)
                 # restore the copy
                 shutil.rmtree(d); os.makedirs(d)
                 sh("git -C /repo archive HEAD | tar -x -C %s" % d)
